@@ -39,6 +39,10 @@ OPS = [
     ("Some->None-guard", r"\.is_some\(\)", ".is_none()"), ("is_ok->is_err", r"\.is_ok\(\)", ".is_err()"),
     ("min->max", r"\.min\(", ".max("), ("max->min", r"\.max\(", ".min("),
     ("wrapping->plain-sub1", r"\.saturating_sub\(1\)", ".saturating_sub(0)"),
+    # an error is swallowed: `expr?;` on its own line becomes `let _ = expr;`
+    ("swallow-error", r"^(\s*)([^=\n]*[\w)\]])\?;\s*$", None),
+    # a condition is forced
+    ("if-true", r"\bif (?!let )([^{}]+) \{\s*$", None), ("if-false", r"\bif (?!let )([^{}]+) \{\s*$", None),
     # statement deletion: an assignment to a field / a mutating call on its own line is removed
     ("delete-stmt", r"^(\s*)((self\.|\*)?[\w.\[\]]+\s*([+\-*|&^]|<<|>>)?=\s*[^=;][^;]*;|[\w.]+\.(push|push_str|extend|extend_from_slice|update|insert|copy_from_slice|truncate|clear|fill)\([^;]*\);)\s*$", None),
 ]
@@ -127,6 +131,14 @@ def main():
                         new = str(int(m.group(1)) + 1)
                     elif name == "hex-lowbit":
                         new = "0x%02X" % (int(m.group(1), 16) ^ 1)
+                    elif name == "swallow-error":
+                        if l.lstrip().startswith(("let ", "return", "Ok(", "Some(")) or "=>" in l:
+                            continue
+                        new = m.group(1) + "let _ = " + m.group(2).strip() + ";"
+                    elif name in ("if-true", "if-false"):
+                        if "else if" in l and name == "if-true":
+                            pass
+                        new = "if " + ("true" if name == "if-true" else "false") + " {"
                     elif name == "delete-stmt":
                         if l.lstrip().startswith(("let ", "const ", "static ", "type ", "pub ", "use ")):
                             continue
